@@ -296,6 +296,10 @@ func diffCase(in caseInput, cfgs []config, o diffOpts) diffOut {
 					if st.SquashedStores > 0 {
 						mech = append(mech, "wrong-path-store")
 					}
+					if st.SquashedRegWB > 0 && c.V == "mvp6-2" {
+						// MVP-6.2 keeps one uncommitted value per register: the squashed write replaced an older one
+						mech = append(mech, "wrong-path-transaction-write")
+					}
 					for _, m := range mechanismSignatures(p, dyn, lobs) {
 						if m == "commit-with-older-in-flight" {
 							mech = append(mech, m)
